@@ -126,7 +126,10 @@ def run_case(d, src_name, src, op):
         elif open(labp, 'rb').read() != old[labp]:
             fails.append('%s: labels file touched without -l' % desc)
         if op['hex'] is not None:
-            mem = ihex_decode(open(hexp).read())
+            try:
+                mem = ihex_decode(open(hexp).read())
+            except (AssertionError, ValueError, IndexError, OSError) as e:
+                mem = {'unreadable': repr(e)}
             off = int(op['hex'], 0)
             data = bytes.fromhex(api['ok'])
             want = {off + i: b for i, b in enumerate(data)}
